@@ -216,6 +216,34 @@ def check_subst(s, mapping, env, env_names, getonly=False):
         return ("subst:error-without-name-or-source", repr(got[1]))
     if not getonly and m != before:
         return ("subst:mapping-mutated", "%r -> %r" % (before, m))
+    if not getonly and mapping and want[0] == "ok" and got[0] == "ok" and (len(s) + len(mapping)) % 3 == 0:
+        # the same text and the SAME mapping object again, after the application has changed a
+        # value, and after it has replaced one name by another (same number of names)
+        for step in ("value", "name"):
+            k = sorted(m)[0]
+            if step == "value":
+                m[k] = m[k] + "~"
+            else:
+                m[k + "_"] = m.pop(k)
+            try:
+                want2 = ("ok", model.ref_subst(s, dict(m), env))
+            except model.SubstSyntax:
+                want2 = ("syntax", None)
+            except model.SubstMissing:
+                want2 = ("missing", None)
+            except model.Unspecified:
+                break
+            try:
+                got2 = ("ok", S.substitute(s, m))
+            except ZConfig.SubstitutionReplacementError:
+                got2 = ("missing", None)
+            except ZConfig.SubstitutionSyntaxError:
+                got2 = ("syntax", None)
+            except Exception as e:  # noqa
+                return ("subst:internal:%s" % type(e).__name__, repr(e))
+            if got2 != want2:
+                return ("subst:same-mapping-object-after-a-change-of-%s" % step,
+                        "mapping now %r: got %r want %r" % (m, got2, want2))
     if want[0] == "unspec":
         return None
     if len(problems) >= 2:
